@@ -70,6 +70,10 @@ def _global_uses(P):
     return use
 
 
+# C library functions that only read through their pointer arguments and do not retain them
+READONLY_EXTERNALS = {'memcmp', 'strcmp', 'strncmp', 'strlen', 'strchr', 'strstr', 'getenv', 'bcmp'}
+
+
 def param_write_summaries(P):
     """{Function: set of parameter indices through which the function (or a callee) may write or which it lets escape}"""
     if getattr(P, '_pws', None) is not None:
@@ -113,6 +117,8 @@ def param_write_summaries(P):
                             if any(k in W[t] for t in tgts):
                                 W[f].add(i); changed = True
                         elif g is None:
+                            if (c.callee or '') in READONLY_EXTERNALS:
+                                continue
                             if (c.callee or '').startswith('llvm.') and not (c.callee or '').startswith(('llvm.mem',)):
                                 continue
                             if (c.callee or '').startswith(('llvm.memcpy', 'llvm.memmove')) and k == 1:
